@@ -91,6 +91,16 @@ func crashParams(r *rand.Rand, env *core.Env, bias string) crashlab.Params {
 	return p
 }
 
+// bigTxnParams turns p into a history whose transactions each change every one of 200-420 wide rows (see crashlab.Params.BigTxnRows).
+func bigTxnParams(r *rand.Rand, p *crashlab.Params) {
+	p.Tables = []crashlab.TableDef{{Name: "h0", Via: "api", Idx: []string{[]string{"skiplist", "uniq"}[r.Intn(2)], "", ""}}}
+	p.MemKB = 8192
+	p.MaxPayload = 3000
+	p.RowSizes = []int{1400, 1700, 2200}
+	p.BigTxnRows = 200 + r.Intn(220)
+	p.MaxOpen = 1
+}
+
 func describeHistory(h *crashlab.History) map[string]any {
 	log := h.StmtLog
 	if len(log) > 60 {
@@ -190,6 +200,12 @@ func crashCase(env *core.Env, idx int, prop, bias string) *core.CaseResult {
 		res.Add("concurrent_histories", 1)
 		res.Add("concurrent_history_clients", int64(p.Clients))
 	} else {
+		if idx%8 == 6 {
+			// one transaction larger than the log buffer: wide rows, every row changed by one statement, big pool (no eviction
+			// flushes the log in between), no index on the changed column
+			bigTxnParams(r, &p)
+			res.Add("histories_with_a_transaction_larger_than_the_log_buffer", 1)
+		}
 		h, fatal = crashlab.Run(r, fmt.Sprintf("%s/hist_%d", env.TmpDir, idx), p)
 	}
 	for k, v := range h.Stats {
